@@ -1,3 +1,143 @@
-/-! Model for property C16 (core Lean only; no Mathlib). -/
+/-! Model for property C16 (core Lean only): the *structure* of the density-operator network that
+`pytreenet/ttns/ttndo.py::from_ttns` builds from a state, the identifier conventions, the padded
+root bond and the contraction-order filter of `contractions/ttndo_contractions.py`.
+
+* `Tree`                ↔ the source TTNS as an ordered rooted tree (identifier, ordered children)
+* `Net`                 ↔ what is observable of a `TreeStructure`: dict order of `nodes`, every
+                          node's `parent` and ordered `children`
+* `Net.addChild`        ↔ `add_child_to_parent` (structure only): refuses an existing identifier and
+                          a missing parent, appends the child to the parent's child list
+* `addSymmetric`        ↔ `SymmetricTTNDO.add_symmetric_children_to_parent`: the test
+                          `parent_id == self.root_id` is a comparison of identifiers, as in the code
+* `recAdd`/`recAddNode` ↔ `_rec_add_children` (depth first, in the child order of the state)
+* `fromTtns`            ↔ `from_ttns`: trivial root, mirrored copies of the state's root, recursion
+* `ketId`/`braId`       ↔ `ket_id`/`bra_id`: the suffix strings `_ket` / `_bra` appended
+* `contractionOrder`    ↔ `ttndo_contraction_order`: `id.endswith(ket_suffix)` on `linearise()`
+* `pad0`                ↔ `numpy.pad(t, [(0, d-1), (0,0), …])` along the new leading axis of length 1
+
+Identifiers are abstract (`α` with decidable equality) in the structural part; the suffix
+convention is modelled on `List Char`. -/
 namespace Ptn.C16
+
+inductive Tree (α : Type) where
+  | node (id : α) (kids : List (Tree α))
+
+namespace Tree
+variable {α : Type}
+
+def id : Tree α → α
+  | node i _ => i
+
+def kids : Tree α → List (Tree α)
+  | node _ ks => ks
+
+mutual
+/-- identifiers in depth-first preorder -/
+def ids : Tree α → List α
+  | node i ks => i :: idsL ks
+def idsL : List (Tree α) → List α
+  | [] => []
+  | t :: ts => ids t ++ idsL ts
+end
+
+mutual
+/-- every node with its parent (`p` for the root of the subtree) and its ordered child identifiers -/
+def info (p : α) : Tree α → List (α × α × List α)
+  | node i ks => (i, p, ks.map Tree.id) :: infoL i ks
+def infoL (p : α) : List (Tree α) → List (α × α × List α)
+  | [] => []
+  | t :: ts => info p t ++ infoL p ts
+end
+
+mutual
+/-- `linearise()`: children before the node -/
+def post : Tree α → List α
+  | node i ks => postL ks ++ [i]
+def postL : List (Tree α) → List α
+  | [] => []
+  | t :: ts => post t ++ postL ts
+end
+
+end Tree
+
+structure Net (α : Type) where
+  order : List α
+  parent : α → Option α
+  children : α → List α
+
+variable {α : Type} [DecidableEq α]
+
+/-- `add_trivial_root` -/
+def Net.trivialRoot (r : α) : Net α := ⟨[r], fun _ => none, fun _ => []⟩
+
+def Net.addChild (net : Net α) (c p : α) : Option (Net α) :=
+  if c ∈ net.order then none            -- identifier already used: the library raises
+  else if p ∉ net.order then none       -- parent not in the network: the library raises
+  else some
+    { order := net.order ++ [c]
+      parent := fun x => if x = c then some p else net.parent x
+      children := fun x => if x = p then net.children p ++ [c] else if x = c then [] else net.children x }
+
+/-- `add_symmetric_children_to_parent(child_id, …, parent_id, …)` -/
+def addSymmetric (ket bra : α → α) (r : α) (net : Net α) (child parent : α) : Option (Net α) :=
+  let pk := if parent = r then r else ket parent
+  let pb := if parent = r then r else bra parent
+  match net.addChild (ket child) pk with
+  | none => none
+  | some net1 => net1.addChild (bra child) pb
+
+mutual
+/-- `_rec_add_children(ttns, ttndo, node)` for `node.identifier = p`, `node.children = ks` -/
+def recAdd (ket bra : α → α) (r : α) (net : Net α) (p : α) : List (Tree α) → Option (Net α)
+  | [] => some net
+  | t :: ts =>
+    match recAddNode ket bra r net p t with
+    | none => none
+    | some net1 => recAdd ket bra r net1 p ts
+/-- one iteration of the loop: attach the pair of copies of the child, then recurse into it -/
+def recAddNode (ket bra : α → α) (r : α) (net : Net α) (p : α) : Tree α → Option (Net α)
+  | .node i ks =>
+    match addSymmetric ket bra r net i p with
+    | none => none
+    | some net1 => recAdd ket bra r net1 i ks
+end
+
+/-- `from_ttns(ttns, root_id = r)` -/
+def fromTtns (ket bra : α → α) (r : α) : Tree α → Option (Net α)
+  | .node i ks =>
+    match addSymmetric ket bra r (Net.trivialRoot r) i r with
+    | none => none
+    | some net1 => recAdd ket bra r net1 i ks
+
+/-! ### identifier convention -/
+
+abbrev Ident := List Char
+
+def ketSuffix : Ident := "_ket".toList
+def braSuffix : Ident := "_bra".toList
+def ketId (s : Ident) : Ident := s ++ ketSuffix
+def braId (s : Ident) : Ident := s ++ braSuffix
+
+/-- `node_id.endswith(suffix)` -/
+def endsWith (s suffix : Ident) : Bool := suffix.isSuffixOf s
+
+/-- `ttndo_contraction_order`: the identifiers of `linearise()` that end with the ket suffix -/
+def contractionOrder (suffix : Ident) (linearised : List Ident) : List Ident :=
+  linearised.filter (endsWith · suffix)
+
+/-- `reverse_ket_id` (the assertion is modelled by `none`) -/
+def reverseId (suffix : Ident) (s : Ident) : Option Ident :=
+  if endsWith s suffix then some (s.take (s.length - suffix.length)) else none
+
+/-- the identifiers of the TTNDO in `linearise()` order: ket branch, bra branch, root -/
+def linearisedIds (r : Ident) (t : Tree Ident) : List Ident :=
+  t.post.map ketId ++ t.post.map braId ++ [r]
+
+/-! ### the padded root bond -/
+
+/-- entry `k` along axis 0 of `numpy.pad(x.reshape((1,)+shape), [(0, d-1), (0,0)…])`, where `x0` is
+the (only) slice of the reshaped tensor; `k` ranges over `0 … d-1` -/
+def pad0 {β : Type} [OfNat β 0] (before len : Nat) (x : Nat → β) (k : Nat) : β :=
+  if k < before then 0 else if k < before + len then x (k - before) else 0
+
 end Ptn.C16
